@@ -1250,6 +1250,14 @@ impl Gen {
       }
       let n = (self.left / (cuts - k + 1)).max(1);
       self.run_mix(n, false);
+      // the process may be killed between any two operations: what is in the file now must be this very arena
+      for _ in 0..self.rng.range(0, 2) {
+        if self.case.is_some() {
+          self.emit("crashcheck".to_string());
+          let m = self.rng.range(1, 4) as usize;
+          self.run_mix(m, false);
+        }
+      }
       // `clear` of a file-backed arena must leave a file that is still a valid (pristine) arena
       if self.rng.chance(8) && self.case.is_some() {
         self.release_all(true, |_| false);
@@ -1263,6 +1271,7 @@ impl Gen {
         self.trunc_once();
         let m = self.rng.range(1, 6) as usize;
         self.run_mix(m, false);
+        self.emit("crashcheck".to_string());
       }
       if !self.cut() {
         return;
